@@ -408,6 +408,74 @@ def r_rt_loop(e, R):
     R.floor("R-RT-LOOP", 8)
 
 
+BROAD = {None, "Exception", "BaseException"}
+# calls that cannot raise on the values the sweep applies them to (a dict of dicts built by main itself)
+SWEEP_TOTAL_CALLS = {"len", "items", "keys", "values", "list", "sorted"}
+
+
+def _sweep_region(e):
+    """(func, outer try, finally statements, helper defs) of the tracker's end-of-life sweep."""
+    f, loop, tr, _, roles = _loop_parts(e)
+    outer = None
+    p = parent(e, loop)
+    while p is not None and not isinstance(p, ast.FunctionDef):
+        if isinstance(p, ast.Try) and p.finalbody:
+            outer = p
+        p = parent(e, p)
+    if outer is None:
+        return f, None, [], {}, roles
+    helpers = {s.name: s for s in outer.finalbody if isinstance(s, ast.FunctionDef)}
+    return f, outer, outer.finalbody, helpers, roles
+
+
+def _broadly_protected(e, call, stop):
+    """The innermost enclosing position of `call` (below `stop`) where an exception it raises is caught by a broad handler:
+    the call must sit in the *body* of a Try with a bare / Exception / BaseException handler.  A call inside a handler,
+    an else or a finally clause of a Try is not protected by that Try."""
+    child = call
+    p = e.prog.parent.get(id(call))
+    while p is not None and p is not stop:
+        if isinstance(p, ast.Try):
+            in_body = any(child is s for s in p.body)
+            if in_body and any((h.type is None) or (norm(h.type) in BROAD) for h in p.handlers):
+                return True
+        child = p
+        p = e.prog.parent.get(id(p))
+    return False
+
+
+def r_rt_sweep(e, R):
+    """R-RT-SWEEP: the end-of-life sweep is total.  No exception raised inside the sweep -- by a cleanup function, by a
+    warning turned into an error (the tracker inherits -W error / PYTHONWARNINGS from its parent) or by a write to a closed
+    stderr -- can leave the sweep before every remaining name of every type was handed to its cleanup function: every call
+    of the sweep region that may raise sits in the body of a try with a broad handler."""
+    f, outer, fin, helpers, roles = _sweep_region(e)
+    if outer is None:
+        raise AnalysisError("tracker: end-of-life sweep (finally) not found")
+    n = 0
+    for region_name, stmts, stop in [("finally", [s for s in fin if not isinstance(s, ast.FunctionDef)], outer)] + \
+            [(nm, hf.body, hf) for nm, hf in helpers.items()]:
+        for s in stmts:
+            for c in _walk_noscope(s) if not isinstance(s, ast.FunctionDef) else ():
+                if not isinstance(c, ast.Call):
+                    continue
+                fn = c.func
+                nm = fn.id if isinstance(fn, ast.Name) else fn.attr if isinstance(fn, ast.Attribute) else None
+                if isinstance(fn, ast.Name) and fn.id in helpers:
+                    continue  # total by this rule applied to the helper itself
+                if nm in SWEEP_TOTAL_CALLS:
+                    continue
+                n += 1
+                ok = _broadly_protected(e, c, stop)
+                R.check(ok, "R-RT-SWEEP", f"sweep ({region_name}): `{norm(fn)}(...)` cannot abort the sweep", f.short, norm(c)[:90],
+                        f"an exception raised by `{norm(fn)}(...)` (e.g. a warning turned into an error under -W error, which the tracker "
+                        "inherits from its parent, or a failing cleanup function) is not caught by a broad handler and leaves the "
+                        "end-of-life sweep: every resource not yet visited leaks", e.loc(f, c))
+    if n == 0:
+        raise AnalysisError("tracker: no call found in the end-of-life sweep")
+    R.floor("R-RT-SWEEP", 4)
+
+
 def _inside(e, node, anc):
     p = node
     while p is not None:
@@ -531,6 +599,11 @@ def _tracker_singleton_loads(e, f, attr):
     return out
 
 
+def static_truth_module(e, f):
+    """The module of f belongs to this build (posix arm), i.e. it is importable here."""
+    return not f.module.name.endswith("win32") or os.name == "nt"
+
+
 def r_tracker_ship(e, R):
     gp = e.prog.func(f"{SPAWN}:get_preparation_data")
     pr = e.prog.func(f"{SPAWN}:prepare")
@@ -568,6 +641,45 @@ def r_tracker_ship(e, R):
             "into the child's tracker singleton (key or field mismatch): the child starts its own tracker", e.loc(pr, pr.node))
     R.check(set(written.values()) == {"_pid", "_fd"}, "R-TRACKER-SHIP", "both the tracker's pid and fd are shipped", gp.short, "pid, fd",
             f"only {sorted(written.values())} of the tracker is shipped to the child", e.loc(gp, gp.node))
+    # the child installs the inherited tracker before any code of the user's program runs in it: the re-execution of the
+    # parent's __main__ (runpy) and the unpickling of the process object may create tracked resources, and a tracker
+    # singleton whose fd is still None would start a private tracker for this child.
+    pg = e.cfg(pr)
+
+    def runs_user_code(func, call):
+        return isinstance(call.func, ast.Attribute) and isinstance(call.func.value, ast.Name) and call.func.value.id == "runpy" \
+            and call.func.attr in ("run_module", "run_path", "_run_module_as_main")
+    user_nodes = [n for n in pg.nodes for c in calls_in(n) if e.call_has_effect(pr, c, runs_user_code)]
+    installs = [n for n in pg.nodes if n.kind == "stmt" and isinstance(n.ast, ast.Assign) and isinstance(n.ast.targets[0], ast.Attribute)
+                and n.ast.targets[0].attr in ("_fd", "_pid")
+                and (any(x[0] == "obj" and x[2] == f"{RT}:ResourceTracker" for x in e.pt.ev(pr, n.ast.targets[0].value))
+                     or "tracker" in norm(n.ast.targets[0].value))]
+    R.info["prepare_user_code_calls"] = [norm(c.func) for n in user_nodes for c in calls_in(n)]
+    if not user_nodes or not installs:
+        raise AnalysisError("prepare(): main-module fix-up or tracker install not recognised")
+    for u in user_nodes:
+        late = [i for i in installs if pg.find_path(u, lambda x, i=i: x is i, use_exc=False) is not None]
+        R.check(not late, "R-TRACKER-SHIP", "prepare: the inherited tracker(s) are installed before the parent's __main__ is re-executed in the child",
+                pr.short, norm(u.ast)[:70], "the child re-executes the user's main module while its tracker singleton still has no fd: a resource "
+                "created at import time starts a private tracker for this child (a second tracker in the tree, which sweeps at this child's exit); "
+                f"installed later: {[norm(i.ast)[:50] for i in late]}", e.loc(pr, u.ast))
+    # the child's entry point prepares before it unpickles the process object
+    for mq in (f"{POPEN}:<module>", "loky.backend.popen_loky_win32:main"):  # the posix entry point is module-level code
+        mf = e.prog.funcs.get(mq)
+        if mf is None:
+            raise AnalysisError(f"child entry point {mq} not found")
+        if not static_truth_module(e, mf):
+            continue
+        mg = e.cfg(mf)
+        preps = [n for n in mg.nodes for c in calls_in(n) if f"{SPAWN}:prepare" in e.callees_of(c)]
+        boots = [n for n in mg.nodes for c in calls_in(n) if isinstance(c.func, ast.Attribute) and c.func.attr == "_bootstrap"]
+        objv = {c.func.value.id for n in boots for c in calls_in(n) if isinstance(c.func, ast.Attribute) and c.func.attr == "_bootstrap" and isinstance(c.func.value, ast.Name)}
+        loads = [n for n in mg.nodes if n.kind == "stmt" and isinstance(n.ast, ast.Assign) and isinstance(n.ast.targets[0], ast.Name) and n.ast.targets[0].id in objv]
+        if not preps or not loads:
+            raise AnalysisError(f"{mq}: prepare() call or the load of the process object not recognised")
+        R.check(all(any(mg.dominates(p_, l) for p_ in preps) for l in loads), "R-TRACKER-SHIP",
+                "child entry point: prepare() (tracker install) dominates the unpickling of the process object", mf.short, "spawn.prepare(prep_data)",
+                "the process object (locks, queues, user arguments) is unpickled before the inherited tracker is installed", e.loc(mf, loads[0].ast))
     # prepare guards on the key being present
     # launch: the tracker fd is inheritable and in the keep-list
     la = e.prog.func(f"{POPEN}:Popen._launch")
